@@ -106,6 +106,11 @@ impl GcManaged for ObjString {
     fn mark(&self) {}
 
     fn blacken(&self) {}
+
+    #[cfg(feature = "verif_hooks")]
+    fn verif_edges(&self, sink: &mut crate::memory::verif::EdgeSink) {
+        sink.edge("ObjString.class", &self.class);
+    }
 }
 
 impl Eq for Gc<ObjString> {}
@@ -153,6 +158,12 @@ impl GcManaged for ObjStringIter {
     fn blacken(&self) {
         self.iterable.blacken();
     }
+
+    #[cfg(feature = "verif_hooks")]
+    fn verif_edges(&self, sink: &mut crate::memory::verif::EdgeSink) {
+        sink.edge("ObjStringIter.class", &self.class);
+        sink.edge("ObjStringIter.iterable", &self.iterable);
+    }
 }
 
 impl fmt::Display for ObjStringIter {
@@ -191,6 +202,8 @@ impl ObjUpvalue {
     }
 
     pub(crate) fn get(&self) -> Value {
+        #[cfg(feature = "verif_hooks")]
+        self.verif_check_open("get");
         match self.data {
             ObjUpvalueState::Open(a) => unsafe { *a },
             ObjUpvalueState::Closed(v) => v,
@@ -198,6 +211,8 @@ impl ObjUpvalue {
     }
 
     pub(crate) fn set(&mut self, value: Value) {
+        #[cfg(feature = "verif_hooks")]
+        self.verif_check_open("set");
         match self.data {
             ObjUpvalueState::Open(a) => unsafe { *a = value },
             ObjUpvalueState::Closed(ref mut v) => *v = value,
@@ -215,6 +230,15 @@ impl ObjUpvalue {
         match self.data {
             ObjUpvalueState::Open(address) => predicate(address),
             ObjUpvalueState::Closed(_) => false,
+        }
+    }
+
+    #[cfg(feature = "verif_hooks")]
+    fn verif_check_open(&self, what: &'static str) {
+        if let ObjUpvalueState::Open(address) = self.data {
+            if !address.is_null() {
+                crate::memory::verif::on_open_upvalue_access(address as usize, what);
+            }
         }
     }
 
@@ -243,6 +267,15 @@ impl GcManaged for ObjUpvalue {
         if let Some(u) = self.next.as_ref() {
             u.blacken();
         }
+    }
+
+    #[cfg(feature = "verif_hooks")]
+    fn verif_edges(&self, sink: &mut crate::memory::verif::EdgeSink) {
+        match self.data {
+            ObjUpvalueState::Closed(ref value) => value.verif_value_edge("ObjUpvalue.closed", sink),
+            ObjUpvalueState::Open(address) => sink.stack_ptr("ObjUpvalue.open", address as usize),
+        }
+        sink.opt_edge("ObjUpvalue.next", &self.next);
     }
 }
 
@@ -282,6 +315,13 @@ impl GcManaged for ObjFunction {
     fn blacken(&self) {
         self.name.blacken();
         self.chunk.blacken();
+    }
+
+    #[cfg(feature = "verif_hooks")]
+    fn verif_edges(&self, sink: &mut crate::memory::verif::EdgeSink) {
+        sink.edge("ObjFunction.name", &self.name);
+        sink.edge("ObjFunction.chunk", &self.chunk);
+        sink.edge("ObjFunction.module_path", &self.module_path);
     }
 }
 
@@ -328,6 +368,11 @@ impl GcManaged for ObjNative {
     fn mark(&self) {}
 
     fn blacken(&self) {}
+
+    #[cfg(feature = "verif_hooks")]
+    fn verif_edges(&self, sink: &mut crate::memory::verif::EdgeSink) {
+        sink.edge("ObjNative.name", &self.name);
+    }
 }
 
 impl fmt::Display for ObjNative {
@@ -366,6 +411,16 @@ impl GcManaged for ObjClosure {
     fn blacken(&self) {
         self.function.blacken();
         self.upvalues.blacken();
+    }
+
+    #[cfg(feature = "verif_hooks")]
+    fn verif_edges(&self, sink: &mut crate::memory::verif::EdgeSink) {
+        sink.edge("ObjClosure.function", &self.function);
+        let upvalues = unsafe { &*self.upvalues.as_ptr() };
+        for upvalue in upvalues.iter() {
+            sink.edge("ObjClosure.upvalues", upvalue);
+        }
+        sink.edge("ObjClosure.module", &self.module);
     }
 }
 
@@ -417,6 +472,17 @@ impl GcManaged for ObjClass {
         self.metaclass.blacken();
         self.methods.blacken();
     }
+
+    #[cfg(feature = "verif_hooks")]
+    fn verif_edges(&self, sink: &mut crate::memory::verif::EdgeSink) {
+        sink.edge("ObjClass.name", &self.name);
+        sink.edge("ObjClass.metaclass", &self.metaclass);
+        sink.opt_edge("ObjClass.superclass", &self.superclass);
+        for (key, value) in self.methods.iter() {
+            sink.edge("ObjClass.methods.key", key);
+            value.verif_value_edge("ObjClass.methods.value", sink);
+        }
+    }
 }
 
 impl fmt::Display for ObjClass {
@@ -450,6 +516,15 @@ impl GcManaged for ObjInstance {
         self.class.blacken();
         self.fields.blacken();
     }
+
+    #[cfg(feature = "verif_hooks")]
+    fn verif_edges(&self, sink: &mut crate::memory::verif::EdgeSink) {
+        sink.edge("ObjInstance.class", &self.class);
+        for (key, value) in self.fields.iter() {
+            sink.edge("ObjInstance.fields.key", key);
+            value.verif_value_edge("ObjInstance.fields.value", sink);
+        }
+    }
 }
 
 impl fmt::Display for ObjInstance {
@@ -479,6 +554,12 @@ impl<T: 'static + GcManaged> GcManaged for ObjBoundMethod<T> {
     fn blacken(&self) {
         self.receiver.mark();
         self.method.blacken();
+    }
+
+    #[cfg(feature = "verif_hooks")]
+    fn verif_edges(&self, sink: &mut crate::memory::verif::EdgeSink) {
+        self.receiver.verif_value_edge("ObjBoundMethod.receiver", sink);
+        sink.edge("ObjBoundMethod.method", &self.method);
     }
 }
 
@@ -555,6 +636,14 @@ impl GcManaged for ObjVec {
         self.class.blacken();
         self.elements.blacken();
     }
+
+    #[cfg(feature = "verif_hooks")]
+    fn verif_edges(&self, sink: &mut crate::memory::verif::EdgeSink) {
+        sink.edge("ObjVec.class", &self.class);
+        for value in self.elements.iter() {
+            value.verif_value_edge("ObjVec.elements", sink);
+        }
+    }
 }
 
 impl fmt::Display for ObjVec {
@@ -616,6 +705,12 @@ impl GcManaged for ObjVecIter {
 
     fn blacken(&self) {
         self.iterable.blacken();
+    }
+
+    #[cfg(feature = "verif_hooks")]
+    fn verif_edges(&self, sink: &mut crate::memory::verif::EdgeSink) {
+        sink.edge("ObjVecIter.class", &self.class);
+        sink.edge("ObjVecIter.iterable", &self.iterable);
     }
 }
 
@@ -679,6 +774,11 @@ impl GcManaged for ObjRange {
     fn blacken(&self) {
         self.class.blacken();
     }
+
+    #[cfg(feature = "verif_hooks")]
+    fn verif_edges(&self, sink: &mut crate::memory::verif::EdgeSink) {
+        sink.edge("ObjRange.class", &self.class);
+    }
 }
 
 impl fmt::Display for ObjRange {
@@ -724,6 +824,12 @@ impl GcManaged for ObjRangeIter {
     fn blacken(&self) {
         self.iterable.blacken();
     }
+
+    #[cfg(feature = "verif_hooks")]
+    fn verif_edges(&self, sink: &mut crate::memory::verif::EdgeSink) {
+        sink.edge("ObjRangeIter.class", &self.class);
+        sink.edge("ObjRangeIter.iterable", &self.iterable);
+    }
 }
 
 impl fmt::Display for ObjRangeIter {
@@ -758,6 +864,15 @@ impl GcManaged for ObjHashMap {
     fn blacken(&self) {
         self.class.blacken();
         self.elements.blacken();
+    }
+
+    #[cfg(feature = "verif_hooks")]
+    fn verif_edges(&self, sink: &mut crate::memory::verif::EdgeSink) {
+        sink.edge("ObjHashMap.class", &self.class);
+        for (key, value) in self.elements.iter() {
+            key.verif_value_edge("ObjHashMap.elements.key", sink);
+            value.verif_value_edge("ObjHashMap.elements.value", sink);
+        }
     }
 }
 
@@ -832,6 +947,14 @@ impl GcManaged for ObjTuple {
     fn blacken(&self) {
         self.class.blacken();
         self.elements.blacken();
+    }
+
+    #[cfg(feature = "verif_hooks")]
+    fn verif_edges(&self, sink: &mut crate::memory::verif::EdgeSink) {
+        sink.edge("ObjTuple.class", &self.class);
+        for value in self.elements.iter() {
+            value.verif_value_edge("ObjTuple.elements", sink);
+        }
     }
 }
 
@@ -916,6 +1039,12 @@ impl GcManaged for ObjTupleIter {
     fn blacken(&self) {
         self.iterable.blacken();
     }
+
+    #[cfg(feature = "verif_hooks")]
+    fn verif_edges(&self, sink: &mut crate::memory::verif::EdgeSink) {
+        sink.edge("ObjTupleIter.class", &self.class);
+        sink.edge("ObjTupleIter.iterable", &self.iterable);
+    }
 }
 
 impl fmt::Display for ObjTupleIter {
@@ -950,6 +1079,18 @@ impl GcManaged for ObjModule {
 
     fn blacken(&self) {
         self.attributes.blacken();
+    }
+
+    #[cfg(feature = "verif_hooks")]
+    fn verif_edges(&self, sink: &mut crate::memory::verif::EdgeSink) {
+        // `class` is not listed: every module a program can hold as a value was created with the
+        // class store's rooted Module class; only the main module (never a value) carries the
+        // placeholder class of the bootstrap phase.
+        sink.edge("ObjModule.path", &self.path);
+        for (key, value) in self.attributes.iter() {
+            sink.edge("ObjModule.attributes.key", key);
+            value.verif_value_edge("ObjModule.attributes.value", sink);
+        }
     }
 }
 
@@ -1155,6 +1296,26 @@ impl GcManaged for ObjFiber {
             caller.blacken();
         }
         self.return_value.blacken();
+    }
+
+    #[cfg(feature = "verif_hooks")]
+    fn verif_edges(&self, sink: &mut crate::memory::verif::EdgeSink) {
+        // `class` is not listed, for the same reason as ObjModule.class (bootstrap fiber).
+        sink.opt_edge("ObjFiber.caller", &self.caller);
+        for value in self.stack[0..self.stack.len()].iter() {
+            value.verif_value_edge("ObjFiber.stack", sink);
+        }
+        for frame in self.frames.iter() {
+            sink.edge("ObjFiber.frames.closure", &frame.closure);
+        }
+        sink.opt_edge("ObjFiber.open_upvalues", &self.open_upvalues);
+        self.return_value.verif_value_edge("ObjFiber.return_value", sink);
+    }
+
+    #[cfg(feature = "verif_hooks")]
+    fn verif_stack_range(&self) -> Option<(usize, usize)> {
+        let lo = self.stack.as_ptr() as usize;
+        Some((lo, lo + STACK_MAX * std::mem::size_of::<Value>()))
     }
 }
 
